@@ -8,6 +8,11 @@
      history ((lib (import ...)) ...) (req ...)                 -> Load.run_history from the initial state (libraries are numbers):
                                                                    one outcome per request D | S<l> | N<l> | F, then " | " and the
                                                                    libraries whose body was evaluated, oldest first
+     closed (<iset> ...) (<wrapper> ...) (name ...)            -> SynClo.closed_probe: per name the definition a plain symbol resolves to in
+                                                                   user code at the user-form position of the innermost wrapper (outermost first;
+                                                                   wrapper = (mac <visible name of an wif/wifx/w0/erw macro>)): first token W:<kinds>, then
+                                                                   O:<lib>:<m> | U | L (a template's local): Env.env_cell in the model environments
+                                                                   built by env_import; "ERR NOTMACRO" when a wrapper name is not such a macro
    Own text<->Coq string conversions: Model shadows OCaml's [string]. *)
 type ostring = string
 let olen = String.length
@@ -131,6 +136,40 @@ let handle (line : ostring) : ostring =
             env_import to_ from (Some ids) true in
       let e = List.fold_left step [empty_frame] isets in
       oconcat " " (List.map (fun f -> "(" ^ oconcat " " (List.rev_map (fun (k, _) -> sym k) f.f_renames) ^ ")") e)
+  | "closed", [L isets; L ws; names] ->
+      let is = List.map iset_of isets in
+      (* a wrapper is named by the VISIBLE name the program has for the macro; the SPEC says which library's
+         definition that is, the definition's own name says which of the generated macros it is *)
+      let kinds = ref [] in
+      let wd = List.map (fun w ->
+        match w with
+        | L [A "mac"; nm] ->
+            (match program_origin !graph is (atom nm) with
+             | Origin (l, m) ->
+                 let k = ostring_of_coq m in
+                 kinds := k :: !kinds;
+                 let c = coq_of_ostring in
+                 (match k with
+                  | "wif" -> DSc (l, [c "it"], [c "it"])
+                  | "wifx" -> DSc (l, [c "it"; c "x"], [c "it"])
+                  | "w0" -> DSc (l, [], [])
+                  | "erw" -> DEr
+                  | _ -> failwith "NOTMACRO")
+             | _ -> failwith "NOTMACRO")
+        | _ -> failwith "wrapper") ws in
+      let st = int_of_nat stride in
+      let show = function
+        | None -> "U"
+        | Some O -> "L"
+        | Some (S k) ->
+            let k = int_of_nat k in
+            let j = k / st and d = k mod st in
+            (match List.nth_opt !graph j with
+             | Some ld -> (match List.nth_opt ld.ld_defs d with
+                           | Some m -> "O:" ^ oconcat "." (List.map sym ld.ld_name) ^ ":" ^ sym m
+                           | None -> "?")
+             | None -> "?") in
+      oconcat " " (("W:" ^ oconcat "," (List.rev !kinds)) :: List.map (fun nm -> show (closed_probe !graph is wd nm)) (atoms names))
   | "history", [L defs; L reqs] ->
       let d = List.map (function L [n; L imps] -> (num n, List.map num imps) | _ -> failwith "defs entry") defs in
       let (st, tr) = run_history (nat_of_int 64) d init_state (List.map num reqs) in
